@@ -499,7 +499,7 @@ func (a *nilAnalyzer) nilConstResult(m *ssa.Function, k int, depth int) (val, kn
 
 // ruleNilOrder (contradiction rule): a function that tests one of its pointer parameters against
 // nil believes the parameter may be nil; a dereference of that parameter which is not protected by
-// the test and can run before it contradicts that belief (`cap(a.buf) > max || a == nil`): for the
+// the test and dominates it contradicts that belief (`cap(a.buf) > max || a == nil`): for the
 // nil value the function was written to tolerate — a typed-nil argument on a filtered event — it
 // panics.
 func ruleNilOrder(r *Run, p *Prog, rels []string) {
@@ -570,7 +570,10 @@ func ruleNilOrder(r *Run, p *Prog, rels []string) {
 						if nonNilSucc != cb.Succs[1-c.nonNil] && nonNilSucc.Dominates(b) && len(nonNilSucc.Preds) == 1 {
 							protected = true
 						}
-						if b == cb || blockReaches(b, cb) {
+						// the contradiction: every execution that reaches the test has already
+						// dereferenced the pointer (the dereference dominates the test), so the test
+						// can only ever see a non-nil value or come too late
+						if b == cb || (b.Dominates(cb) && blockReaches(b, cb)) {
 							reachesCheck = true
 						}
 					}
